@@ -334,9 +334,9 @@ func runC15(c *Ctx) {
 	for _, f := range afns {
 		for _, op := range blockingOps(f) {
 			nA++
-			ok, why := wakeable(op, func(ch string) bool {
+			ok, why := wakeableLifted(op, func(ch string) bool {
 				return suffixIn(ch, W) || strings.Contains(ch, "DoneChan()") || strings.Contains(ch, ".DoneChan(") || strings.HasSuffix(ch, ".doneChan") || strings.HasSuffix(ch, ".connClosedChan") || strings.HasSuffix(ch, ".stopChan")
-			})
+			}, 2)
 			if ok {
 				c.Ok("api-op", opKey(op), op.instr.Pos(), why)
 				continue
@@ -359,6 +359,47 @@ func runC15(c *Ctx) {
 			c.Check(ok, "muxer-op", opKey(op), op.instr.Pos(), why, "muxer goroutine can block forever: "+op.desc)
 		}
 	}
+}
+
+// wakeableLifted: wakeable, also when a wake channel reaches the operation as a parameter of an unexported helper: then
+// every call site must pass a wake channel in that position.
+func wakeableLifted(op blockOp, wake func(ch string) bool, depth int) (bool, string) {
+	if ok, why := wakeable(op, wake); ok || depth <= 0 {
+		return ok, why
+	}
+	hasParam := false
+	for _, r := range op.recvs {
+		if len(r) >= 2 && r[0] == 'p' && r[1] >= '0' && r[1] <= '9' && !strings.Contains(r, ".") {
+			hasParam = true
+		}
+	}
+	if !hasParam || op.fn.Parent() != nil || op.fn.Object() == nil || op.fn.Object().Exported() {
+		return false, ""
+	}
+	callers := callersInPkg(op.fn)
+	if len(callers) == 0 {
+		return false, ""
+	}
+	why := ""
+	for _, ci := range callers {
+		op2 := op
+		op2.fn = ci.Parent()
+		op2.recvs = nil
+		for _, r := range op.recvs {
+			for i, a := range ci.Common().Args {
+				if r == fmt.Sprintf("p%d", i) {
+					r = desc(a)
+				}
+			}
+			op2.recvs = append(op2.recvs, r)
+		}
+		ok, w := wakeableLifted(op2, wake, depth-1)
+		if !ok {
+			return false, ""
+		}
+		why = w + " (passed by every caller)"
+	}
+	return true, why
 }
 
 // opSites: the key(s) an operation is judged under. Normally the operation's own key. When the operation sits in a
